@@ -59,6 +59,29 @@ def run(ctx):
         s = U.gen_system(rng, max_entries=3, allow_order=(1, 1, 1, 2, 2, 3), kinds=("lin", "nonlin", "nonlin", "coupled", "off", "nonlin"))
         if U.offsets(s)[1] <= 5:
             systems.append(s)
+    # two or three mutually INDEPENDENT coupling groups whose variables are listed interleaved (v1, v2, w1, w2; x, y, z with
+    # x-z coupled): the Jacobian is block-structured only up to a permutation
+    def interleaved():
+        T = lambda c, pows: {"c": str(c), "pows": pows}
+        shape = rng.choice([[0, 1, 0, 1], [0, 1, 0], [0, 1, 1, 0], [0, 1, 2, 0, 1], [1, 0, 0, 1]])
+        m = len(shape)
+        names = U.pick_names(rng, m)
+        ents = []
+        for i in range(m):
+            mates = [j for j in range(m) if shape[j] == shape[i] and j != i]
+            terms = [T(rng.choice([-1, -2, Fraction(-1, 2)]), [[["v", i], rng.choice([1, 1, 3])]])]
+            for j in mates:
+                q = rng.random()
+                if q < 0.5:
+                    terms.append(T(rng.choice([1, -1, 2]), [[["v", i], 1], [["v", j], 1]]))
+                elif q < 0.8:
+                    terms.append(T(rng.choice([1, Fraction(1, 2)]), [[["v", j], 2]]))
+                else:
+                    terms.append(T(rng.choice([1, 3]), [[["v", j], 1]]))
+            ents.append({"name": names[i], "order": 1, "kind": "ode", "rhs": U.merge_terms(terms), "ivs": [U.coef_str(rng.choice([1, 2, Fraction(1, 2)]))], "single_iv": True, "gen_kind": "interleaved_groups"})
+        return {"entries": ents, "params": [], "funs": []}
+    for _ in range(8 if quick else 60):
+        systems.append(interleaved())
     tasks, meta = [], []
     for s in systems:
         pt = U.gen_point(s, rng)
